@@ -1256,6 +1256,12 @@ pub fn gen_c19(seed: u64, _thorough: bool) -> Case {
         }
         case.raw("ucinewgame");
     }
+    if pert >= 4 && rng.chance(1, 2) {
+        // commands between the reset and the new game that must not matter: refused or idle ones
+        for _ in 0..rng.range(1, 3) {
+            case.raw(*rng.pick(&["go depth 2", "go movetime 20", "stop", "isready", "show", "wait", "go infinite", "uci"]));
+        }
+    }
     case.push(GK::NewGame { root: root.clone(), pre: pre.clone() });
     case.push(GK::PosCur);
     case.raw(format!("go depth {}", depth));
